@@ -134,7 +134,7 @@ func pickLogic(quant, uf, arr, ints bool) string {
 	}
 }
 
-var valueRe = regexp.MustCompile(`\(\s*([^\s()|]+|\|[^|]*\|)\s+(#x[0-9a-fA-F]+|#b[01]+|true|false|-?\d+|\(-\s*\d+\)|\(_\s+bv\d+\s+\d+\))\s*\)`)
+var valueRe = regexp.MustCompile(`\(\s*([^\s()|]+|\|[^|]*\|)\s+(#x[0-9a-fA-F]+|#b[01]+|true|false|-?\d+|\(-\s*\d+\)|\(_\s+bv\d+\s+\d+\)|[A-Za-z_@][A-Za-z0-9_!@.$]*|\(as\s+[^()\s]+\s+[^()\s]+\))\s*\)`)
 
 func parseModel(out string) map[string]string {
 	m := map[string]string{}
